@@ -15,22 +15,63 @@
    property is repaired in /repo (C10_no_trigger_left) -, [kinv] the store invariant "every graph
    holding a quad is known". *)
 From Coq Require Import Permutation.
-From RV Require Import Update.Model Update.Proofs Update.Ops Update.Where Update.Seq.
+From RV Require Import Update.Model Update.Proofs Update.Ops Update.Where Update.Seq Update.Perm Update.Inv Update.Request.
 Local Open Scope N_scope.
 
 (* The checker the correspondence run evaluates on rdflib's answers accepts the
    model on every well-formed case outside the known-finding regions. *)
-(* _partial: [in_model_where c] is a FRAGMENT, not well-formedness.  What is missing for
-   the full statement: an operation whose solutions the model computes (ModifyW,
-   DeleteWhereW) in a later position of the request, or with blank-node labels in
-   its templates, or with a WHERE outside BGP / Join / Union / GRAPH, and requests
-   with a CREATE without SILENT.  (For those: the single-step theorems
-   C10_modify_where / C10_delete_where_in_model at any position and with any
-   template, and the conformance run.)  No trigger is left: kf c = 0 always. *)
+(* _partial: [in_model_where_any c] is a FRAGMENT, not well-formedness: every operation whose
+   solutions the model computes (ModifyW, DeleteWhereW) - at ANY position of the request - has
+   its WHERE in BGP / Join / Union / GRAPH (accepted by C04's [frag]) and templates without
+   blank-node label; no CREATE without SILENT; constants and given bound values are not C04's
+   two boolean ids; the initial store is duplicate-free and free of them.  What is still
+   missing for the full statement: templates WITH blank-node labels under a computed WHERE at
+   request level (needs completeness of [iso_eqb] for non-identity renamings; the single-step
+   theorem C10_modify_where covers them), WHERE forms outside the fragment, non-silent CREATE. *)
 Theorem C10_spec_ok_model_partial : forall c,
+  wf c -> in_model_where_any c -> spec_ok c (model_obs c) = true.
+Proof. exact spec_ok_model_any. Qed.
+Print Assumptions C10_spec_ok_model_partial.
+
+(* the same as a statement about the stores: the model's own store is threaded through the
+   request, the specification works on its own listing of the same set of quads *)
+Theorem C10_request_any_position_partial : forall e ops k s a,
+  has_dataset e = true \/ forallb (fun o => negb (needs_dataset o)) ops = true ->
+  Forall op_ok ops -> kinv s -> store_ok (quads s) -> qseteq (quads s) a ->
+  exists s', eval_from e k ops s = Ok s' /\ qseteq (quads s') (spec_from e k ops a) /\ kinv s'.
+Proof. exact request_any. Qed.
+Print Assumptions C10_request_any_position_partial.
+
+(* what made it possible.  (1) The prescribed solutions of a WHERE pattern of the fragment do
+   not depend, as a multiset, on how the store lists its quads. *)
+Theorem C10_where_listing_independent : forall e w ud un p a a',
+  walg p = true -> NoDup a -> NoDup a' -> qseteq a a' ->
+  Permutation (s_omega e w ud un p a) (s_omega e w ud un p a').
+Proof. exact s_omega_perm. Qed.
+Print Assumptions C10_where_listing_independent.
+
+(* (2) every operation keeps the store duplicate-free ... *)
+Theorem C10_store_stays_duplicate_free : forall e k o s s',
+  scope e o -> NoDup (quads s) -> eval_op e k o s = Ok s' -> NoDup (quads s').
+Proof. exact NoDup_step. Qed.
+Print Assumptions C10_store_stays_duplicate_free.
+
+(* ... and free of C04's two boolean ids (computed solutions bind variables to terms of the
+   store or to graph names) *)
+Theorem C10_store_stays_in_C04_vocabulary : forall e k o a, op_nb o ->
+  match o with
+  | ModifyW _ _ _ _ _ p => walg p = true /\ (forall names, Sparql.Agreement.frag names [] p = true)
+  | _ => True
+  end ->
+  terms_nb a -> terms_nb (spec_op e k o a).
+Proof. exact spec_nb. Qed.
+Print Assumptions C10_store_stays_in_C04_vocabulary.
+
+(* the earlier form (computed WHERE in first position only), kept *)
+Theorem C10_spec_ok_model_first_position_partial : forall c,
   wf c -> in_model_where c -> kf c = 0 -> spec_ok c (model_obs c) = true.
 Proof. exact spec_ok_model. Qed.
-Print Assumptions C10_spec_ok_model_partial.
+Print Assumptions C10_spec_ok_model_first_position_partial.
 
 (* full strength for requests all of whose solution lists are given (no ModifyW,
    DeleteWhereW, non-silent CREATE): only genuine well-formedness is assumed *)
@@ -334,4 +375,28 @@ Proof.
     + repeat constructor; simpl; intuition congruence.
     + intros q [<-|[<-|[<-|[]]]] t [<-|[<-|[<-|[]]]]; reflexivity.
   - split; [vm_compute; reflexivity|split; [vm_compute; reflexivity|split; vm_compute; reflexivity]].
+Qed.
+
+(* non-vacuity of the any-position fragment: the computed WHERE is the THIRD operation *)
+Example C10_nonvacuous_any_position :
+  let pat := Sparql.Algebra.Join false (Sparql.Algebra.BGP [])
+               (Sparql.Algebra.Graph (Sparql.Algebra.Vr 5)
+                  (Sparql.Algebra.Join false (Sparql.Algebra.BGP [])
+                     (Sparql.Algebra.BGP [(Sparql.Algebra.Vr 1, Sparql.Algebra.Vr 2, Sparql.Algebra.Vr 3)]))) in
+  let c := {| c_env := {| e_fe := FCG; e_union := true; e_lits := []; e_bnodes := [] |};
+              c_quads := [((1, 3, 2), 0); ((2, 3, 1), 1)]; c_known := [0; 1];
+              c_ops := [InsertData [(1, 3, 12)] [(5, [(12, 3, 1)])];
+                        Copy false (DIri 1) (DIri 2);
+                        ModifyW None [] [] (Some swap_del) (Some swap_ins) pat;
+                        DeleteWhereW {| t_triples := [(PVar 1, PConst 3, PConst 12)]; t_quads := [] |}] |} in
+  wf c /\ in_model_where_any c /\ spec_ok c (model_obs c) = true.
+Proof.
+  simpl. split; [intros q [<-|[<-|[]]]; simpl; auto|]. split; [|vm_compute; reflexivity].
+  split.
+  - repeat constructor; simpl; try (intros; reflexivity); try tauto;
+      try (intros ? [<-|[]] ? [<-|[<-|[<-|[]]]]; reflexivity);
+      try (intros ? [<-|[]] ? [<-|[]] ? [<-|[<-|[<-|[]]]]; reflexivity);
+      try (intros ? [<-|[]] ? [<-|[]]; simpl; tauto).
+  - split; [repeat constructor; simpl; intuition congruence|].
+    intros q [<-|[<-|[]]] t [<-|[<-|[<-|[]]]]; reflexivity.
 Qed.
